@@ -363,7 +363,7 @@ def expectedTable (val : Val) (d : DbContent) (o : Options) (r : ClassRow) : Tab
 
 def insertTable (t : TableDump) : List TableDump → List TableDump
   | [] => [t]
-  | u :: us => if t.filenode < u.filenode then t :: u :: us else u :: insertTable t us
+  | u :: us => if t.filenode ≤ u.filenode then t :: u :: us else u :: insertTable t us
 
 /-- tables in filenode order (the canonical order used for comparison; the property fixes no order) -/
 def sortTables (ts : List TableDump) : List TableDump := ts.foldr insertTable []
